@@ -123,8 +123,13 @@ func (repo *Repository) IsFull() (bool, error) {
 
 func (repo *Repository) GitCommand(callerArgs ...string) *exec.Cmd {
 	args := []string{
-		// Disable replace references when running our commands:
+		// Disable replace references when running our commands. The
+		// command-line option alone is not enough: git applies
+		// `core.useReplaceRefs` from the configuration after it, so
+		// an explicit `core.useReplaceRefs=true` anywhere in the
+		// gitconfig would turn replace references back on:
 		"--no-replace-objects",
+		"-c", "core.useReplaceRefs=false",
 
 		// Disable the warning that grafts are deprecated, since we
 		// want to set the grafts file to `/dev/null` below (to
